@@ -460,6 +460,25 @@ def classify(c, v, r):
         return "reimport-differs"
     return "other"
 
+def label_candidates(P):
+    xs = [p[0] for p in P]; ys = [p[1] for p in P]
+    tq = lambda a: -((-a) // 2) if a < 0 else a // 2          # Rust `/ 2`: toward zero
+    x0, y0 = P[0]
+    return [(tq(min(xs) + max(xs)), tq(min(ys) + max(ys))), (x0, y0 - 1), (x0 - 1, y0), (x0, y0 + 1), (x0 + 1, y0)]
+
+def polygons_without_label_location(cases):
+    """named simple polygons none of whose five label candidates lies inside (generator-side count, for the evidence)"""
+    n = tot = 0
+    for c in cases:
+        for s, net in shapes_of(c):
+            if "G" in s and net is not None and len(s["G"]) >= 3:
+                P = [tuple(p) for p in s["G"]]
+                if C13.is_simple(P):
+                    tot += 1
+                    if not any(C13.py_in_region(P, q) for q in label_candidates(P)):
+                        n += 1
+    return n, tot
+
 def lib_size(c):
     return len(json.dumps(c["lib"]))
 
@@ -523,14 +542,17 @@ def nontrivial(c):
 
 def run(chk, replay=None):
     targets = ["Raw/RawGdsExportCheck.vo"]
-    chk.proof_leg(targets, "Properties/C07.v", ["Raw/RawGdsExport_proofs.v", "Raw/RawGdsRoundtrip_proofs.v", "Raw/RawGdsBridge_proofs.v", "Raw/RawGdsLibrary_proofs.v"], "Properties.C07")
+    chk.proof_leg(targets, "Properties/C07.v", ["Raw/RawGdsExport_proofs.v", "Raw/RawGdsRoundtrip_proofs.v", "Raw/RawGdsBridge_proofs.v", "Raw/RawGdsLibrary_proofs.v", "Raw/RawGdsNoPanic_proofs.v"], "Properties.C07")
     chk.assumptions += [
         "Ptr<Cell> targets are indices into the library's own cell list (libraries closed under instantiation); locks not modelled",
         "LayerKey = slot index (no layer is ever removed); Layer.purps/nums are derived from the sequence of add_purpose calls",
         "isize = i64 (64-bit target); arithmetic overflow has debug-build semantics (panic)",
         "the dates of the exported GdsLibrary (time of the call) are compared as zeros",
         "import_units: `(x - c).abs() < eps` is decided on exact dyadic values; rounding of the subtraction cannot change the answer (Sterbenz inside [c/2, 2c], |x - c| >= c/2 >> eps outside)",
-        "polygons: `inside` is the closed even-odd region of Geom/ContainsSpec.v, decided by exact integer arithmetic; that a simple polygon's even-odd and non-zero-winding regions coincide is not proved (Jordan curve theorem)",
+        "polygons: the run decides `inside` by the closed even-odd region of Geom/ContainsSpec.v (exact integer arithmetic); the theorems use the closed non-zero-winding region; that the two coincide for simple polygons is not proved (Jordan curve theorem), only for signed crossing numbers within {-1,0,1}",
+        "C07_roundtrip_layouts_partial covers libraries whose cells all have layouts; abstract-only cells (outline on 32767/32767, ports on Drawing+Pin) are covered by C07_export_no_panic and by the correspondence run only",
+        "the importer side of the composition is builder-c06's model Raw/RawGds.v (any cfg with fx_contains and fx_pico true); GdsDepOrder through the C17 theorem on Order/DepOrderFixed.v",
+        "exportable (the input space): i16 layer tables whose two maps agree and whose layer numbers are pairwise distinct; cell name = name of its layout/abstract, pairwise distinct cell names, nested hierarchy; coordinates and widths in i32; ASCII net names; Label purpose registered for named shapes; Manhattan paths with >= 2 points and no zero-length segment; simple polygons; a named polygon has a representable label location",
         "the export/import composition is observed at the gds21 data-structure level (to_gds / from_gds), as the property's observe_at says; no byte stream is written",
     ]
     if not getattr(chk, "model_ok", False):
@@ -568,6 +590,8 @@ def run(chk, replay=None):
     chk.cov["exportable_cases"] = sum(1 for v, _ in results if v >= 0 and (v // 10) % 10 == 1)
     chk.cov["exportable_and_unambiguous"] = sum(1 for v, _ in results if v >= 0 and (v // 10) % 10 == 1 and (v // 100) % 10 == 1)
     chk.cov["exportable_ambiguous_not_judged"] = sum(1 for v, _ in results if v >= 0 and (v // 10) % 10 == 1 and (v // 100) % 10 == 0 and (v // 1000) % 10 == 1)
+    nl, nt = polygons_without_label_location(cases)
+    chk.cov["named_simple_polygons_without_label_location"] = "%d of %d (export is an error by design: `exportable` demands a label location; not judged)" % (nl, nt)
     nshape = {}
     for c, (v, r) in zip(cases, results):
         if v >= 0 and (v // 10) % 10 == 1:
